@@ -538,3 +538,104 @@ def certify_mode(target):
     return {"search": "PreferFreshImports", "prune_exemptions": True, "prune_audits": True, "prune_imports": False,
             "target": target,
             "other": {"search": "PreferExemptions", "prune_exemptions": False, "prune_audits": False, "prune_imports": False}}
+
+
+# ---------------------------------------------------------------------------
+# command histories on a store directory
+
+def render_remote(peers_struct, registry):
+    return {"peers": {url: render_audits_file(f) for url, f in peers_struct.items()}, "registry": registry}
+
+
+def mutate_remote(rng, peers_struct, registry, versions, notes):
+    """a peer adds / revokes / changes audits; crates.io learns a new version"""
+    peers_struct = copy.deepcopy(peers_struct)
+    registry = copy.deepcopy(registry)
+    r = rng.random()
+    urls = sorted(peers_struct)
+    if urls and r < 0.6:
+        f = peers_struct[rng.choice(urls)]
+        names = sorted(versions)
+        n = rng.choice(names)
+        pcrits = BUILTINS + sorted(f.get("criteria", {}))
+        if r < 0.35:
+            for a in gen_audits_for(rng, n, versions[n], pcrits, notes, False, 0.0) or []:
+                f["audits"].setdefault(n, []).append(a)
+        elif f["audits"]:
+            k = rng.choice(sorted(f["audits"]))
+            if rng.random() < 0.5:
+                f["audits"][k].pop(rng.randrange(len(f["audits"][k])))
+                if not f["audits"][k]:
+                    del f["audits"][k]
+            else:
+                f["audits"][k][0]["criteria"] = crit_list(rng, pcrits)
+    else:
+        n = rng.choice(sorted(registry["packages"]))
+        have = {v["version"] for v in registry["packages"][n]}
+        cand = [v for v in VERSIONS if v not in have]
+        if cand:
+            registry["packages"][n].append({"version": rng.choice(cand), "by": rng.choice([1, 2, 3]), "when": rng.choice(DATES[:6])})
+            registry["packages"][n].sort(key=lambda v: v["version"])
+    return peers_struct, registry
+
+
+def gen_history(rng, cid, length=None):
+    base = gen_unlocked_case(rng, cid, p_violation=0.0)
+    store = base["store_struct"]
+    crits = _crits(store)
+    versions = _third_versions(base)
+    third = sorted({p["name"] for p in base["graph"]["packages"] if p["source"] == "registry"})
+    notes = Notes()
+    notes.n = 9000
+    peers, registry = base["peers_struct"], base["registry"]
+    steps = []
+
+    def add(args, fresh_remote=False):
+        nonlocal peers, registry
+        if fresh_remote:
+            peers, registry = mutate_remote(rng, peers, registry, versions, notes)
+        steps.append({"args": args, "remote": render_remote(peers, registry)})
+
+    first = rng.random()
+    if first < 0.6:
+        add(["regenerate", "exemptions"])
+    elif first < 0.8:
+        add(["check"])
+    n = length or rng.randint(2, 5)
+    for _ in range(n):
+        r = rng.random()
+        fresh = rng.random() < 0.3
+        if r < 0.25:
+            add(["check"], fresh)
+        elif r < 0.33:
+            add(["check", "--locked"], False)
+        elif r < 0.55:
+            flags = [f for f in ("--no-imports", "--no-exemptions", "--no-audits") if rng.random() < 0.25]
+            add(["prune"] + flags, fresh)
+        elif r < 0.63:
+            add(["regenerate", "imports"], fresh)
+        elif r < 0.71:
+            add(["regenerate", "exemptions"], fresh)
+        elif r < 0.83 and third:
+            pkg = rng.choice(third)
+            v = rng.choice(versions[pkg])
+            if rng.random() < 0.5:
+                args = ["certify", pkg, v]
+            else:
+                args = ["certify", pkg, rng.choice([x for x in VERSIONS if x != v]), v]
+            for c in crit_list(rng, crits):
+                args += ["--criteria", c]
+            add(args + ["--accept-all", "--who", "tester", "--force"], fresh)
+        elif r < 0.90 and third:
+            pkg = rng.choice(third)
+            args = ["add-exemption", pkg, rng.choice(versions[pkg] + VERSIONS[:2])]
+            for c in crit_list(rng, crits):
+                args += ["--criteria", c]
+            add(args + ["--force"], False)
+        elif r < 0.94:
+            add(["fmt"], False)
+        else:
+            add(["regenerate", "unpublished"], fresh)
+    case = {"id": cid, "kind": "history", "graph": base["graph"], "store_struct": store,
+            "store": render_store(store), "steps": steps}
+    return case
